@@ -166,7 +166,15 @@ def run(db, res, tier):
         oki = a.idx[:2] == (T("tid", 0), T("tid", 1))
         res.ob(okv and oki, f"{key}|{a.root}", Finding("R-GATE.12", f"{key}|{a.root}|gather-map", f"`{a.root}[{', '.join(show(i) for i in a.idx)}] = {show(v)[:60]}` does not gather x[world, cdof_dof[world, ci]] into compact slot ci", a.loc))
   res.floor("gather writes", n_g, 6)
-  res.rule_text = "R-CAP on the sequential compaction (map writes guarded by count < nvmax, NVMAX bit set under count > nvmax on the same counter, ncdof clamped); R-GATE: scatter kernels write x_c[dof_cdof[i]] for active dofs and 0.0 for frozen ones at [world, i]; gather kernels read x[cdof_dof[ci]] into compact slot ci"
+  # (4) the compact workspace is rebuilt from scratch on every solve: the compacted Jacobian is cleared before the gather
+  # writes the active columns (columns vacated when the active set shrinks must not keep stale entries)
+  from ..rules import r_live
+  from ..tables import live_tables
+
+  tab = {(f, k) for f, k in live_tables.CLEARED_BEFORE_PARTIAL if f.startswith("solver._compact")}
+  ncl = r_live.check_cleared_before_partial(res, db, ["forward.step"], tab)
+  res.floor("compact workspace cleared before gather", ncl, 1)
+  res.rule_text = "R-LIVE.7: the compacted Jacobian is fully cleared on the host before the gather kernel writes the active columns; R-CAP on the sequential compaction (map writes guarded by count < nvmax, NVMAX bit set under count > nvmax on the same counter which keeps counting past the capacity, ncdof clamped); R-GATE: scatter kernels write x_c[dof_cdof[i]] for active dofs and 0.0 for frozen ones at [world, i]; gather kernels read x[cdof_dof[ci]] into compact slot ci"
   res.explanation = "Structural clauses of C38. Not decided: equivalence of the compacted Newton solve with the full solve (numeric)."
   res.extra["analysed"] = {"kernels": ["island._compact_dofs", "solver._scatter_dof_vecs", "solver._scatter_solution", "solver._gather_dof_vecs_compact", "solver._gather_rhs_compact"]}
   res.assumptions += ["dof_cdof / cdof_dof are reset to -1 before compaction (_reset_compact_maps)"]
